@@ -104,6 +104,76 @@ pub fn check_spki(k: &KeySpec, info: &mut CaseInfo) -> Result<(), String> {
 	fail_on_lints(l.take(), "SubjectPublicKeyInfo")
 }
 
+/// Automatic serial over every two-octet digest prefix (cases shared with C05): the INTEGER must be minimal.
+#[cfg(feature = "crypto")]
+pub fn check_serial_sweep(c: &crate::props::c05::SerialKeyCase, info: &mut CaseInfo) -> Result<(), String> {
+	let der = crate::props::c05::serial_sweep_cert(c, info)?;
+	let l = Lints::new();
+	x509::parse_cert(&der, &l).map_err(|e| format!("independent decoder rejects the certificate: {e}"))?;
+	fail_on_lints(l.take(), "certificate with automatic serial")
+}
+
+#[cfg(not(feature = "crypto"))]
+pub fn check_serial_sweep(_: &crate::props::c05::SerialKeyCase, _: &mut CaseInfo) -> Result<(), String> {
+	Ok(())
+}
+
+/// A remote key whose public key has `len` octets (rcgen embeds a remote signer's public key as it
+/// is given): SubjectPublicKeyInfo, certificate and CSR around it must still be canonical DER.
+#[derive(Clone, Copy, Debug, Serialize, Deserialize, PartialEq, Eq, Hash)]
+pub struct KeyLenCase {
+	pub len: u32,
+	pub alg: KeyAlg,
+}
+
+pub fn key_len_cases(_: &RunCfg) -> Vec<KeyLenCase> {
+	let mut v = Vec::new();
+	for alg in keys::available_algs() {
+		if matches!(alg, KeyAlg::Rsa3072 | KeyAlg::Rsa4096 | KeyAlg::Rsa6144) {
+			continue; // same algorithm identifier as RSA-2048
+		}
+		for len in (0u32..=300).chain([65_400, 65_519, 65_520, 65_530, 65_535, 65_536, 70_000]) {
+			v.push(KeyLenCase { len, alg });
+		}
+	}
+	v
+}
+
+pub fn check_key_len(c: &KeyLenCase, info: &mut CaseInfo) -> Result<(), String> {
+	info.nontrivial = true;
+	info.class(format!("public-key-octets:{}", match c.len { 0..=125 => "<=125", 126..=129 => "126-129", 130..=253 => "130-253", 254..=258 => "254-258", 259..=300 => "259-300", _ => ">=64k" }));
+	let alg = keys::rcgen_alg(&KeySpec { alg: c.alg, idx: 0, rsa_hash: RsaHash::Sha256, remote: true });
+	let public: Vec<u8> = (0..c.len).map(|i| (i * 7 + 1) as u8).collect();
+	let key = keys::opaque_key(public.clone(), alg)?;
+	let spki = key.public_key_der();
+	let l = Lints::new();
+	let parsed = x509::parse_spki_der(&spki, &l).map_err(|e| format!("independent decoder rejects the SubjectPublicKeyInfo of a {}-octet key: {e}", c.len))?;
+	fail_on_lints(l.take(), "SubjectPublicKeyInfo")?;
+	if parsed.key_bits != public {
+		return Err("SubjectPublicKeyInfo does not carry the given public key octets".into());
+	}
+	let mut spec = CertSpec::minimal();
+	spec.serial = Some(Hex(vec![3]));
+	spec.kid = KidSpec::Pre(Hex(vec![7]));
+	let cert = mk::cert_params(&spec)?.self_signed(&key).map_err(|e| format!("self_signed: {e}"))?;
+	let l = Lints::new();
+	let pc = x509::parse_cert(cert.der(), &l).map_err(|e| format!("independent decoder rejects the certificate: {e}"))?;
+	fail_on_lints(l.take(), "certificate")?;
+	if pc.spki.raw != spki {
+		return Err("the certificate embeds a SubjectPublicKeyInfo different from public_key_der()".into());
+	}
+	let mut cs = CertSpec::minimal();
+	cs.serial = None;
+	let csr = mk::cert_params(&cs)?.serialize_request(&key).map_err(|e| format!("serialize_request: {e}"))?;
+	let l = Lints::new();
+	let pr = x509::parse_csr(csr.der(), &l).map_err(|e| format!("independent decoder rejects the CSR: {e}"))?;
+	fail_on_lints(l.take(), "CSR")?;
+	if pr.spki.raw != spki {
+		return Err("the CSR embeds a SubjectPublicKeyInfo different from public_key_der()".into());
+	}
+	Ok(())
+}
+
 /// A batch of INTEGER byte strings, encoded as the serial numbers of one CRL and as its CRL
 /// number (cheap: one signature per batch).
 #[derive(Clone, Debug, Serialize, Deserialize, PartialEq, Eq, Hash)]
@@ -217,7 +287,7 @@ pub fn attr_order_cases(_cfg: &RunCfg) -> Vec<CsrCase> {
 pub fn def() -> PropertyDef {
 	PropertyDef {
 		id: "C04",
-		rule: "Certificates, CSRs, CRLs and SubjectPublicKeyInfos generated over the C02/C07/C08 parameter spaces are walked by the harness's strict schema-aware DER validator from the outermost element into every extension value (minimal lengths/INTEGERs/OIDs, BOOLEAN 0xFF, DEFAULTs absent, BIT STRING padding and named-bit lists, SET OF order, string alphabets, RFC 5280 time forms, no trailing bytes); caller-supplied DER is compared byte for byte. Sweeps: 511 key-usage subsets, every 0/1/2-byte serial and CRL number (2-byte: 5 leading patterns in quick, all in thorough) plus boundary 3/4/20/21/22-byte values, every ordering of <= 4 CSR attributes. Non-trivial = artefact contains a value-dependent form (key usage, basic constraints, explicit serial, offset time, custom content, >= 2 attributes, CRL entries).",
+		rule: "Certificates, CSRs, CRLs and SubjectPublicKeyInfos generated over the C02/C07/C08 parameter spaces are walked by the harness's strict schema-aware DER validator from the outermost element into every extension value (minimal lengths/INTEGERs/OIDs, BOOLEAN 0xFF, DEFAULTs absent, BIT STRING padding and named-bit lists, SET OF order, string alphabets, RFC 5280 time forms, no trailing bytes); caller-supplied DER is compared byte for byte. Sweeps: 511 key-usage subsets, every 0/1/2-byte serial and CRL number (2-byte: 5 leading patterns in quick, all in thorough) plus boundary 3/4/20/21/22-byte values, every ordering of <= 4 CSR attributes, the automatic serial for every value of the two leading octets of the key digest it is cut from (65 536 searched opaque keys plus rare three-octet patterns), and opaque remote public keys of every length 0..300 octets and around 65 535 per algorithm identifier (SPKI, certificate, CSR). Non-trivial = artefact contains a value-dependent form (key usage, basic constraints, explicit serial, offset time, custom content, >= 2 attributes, CRL entries).",
 		assumptions: vec!["the harness DER validator implements X.690 §10-11 and the RFC 5280 ASN.1 module correctly (unit-tested on positive and negative vectors)"],
 		subs: vec![
 			prop_sub("cert", 64_000, 1_000_000, || cert_case(CertGenOpts::FULL, true), check_cert_case),
@@ -235,6 +305,8 @@ pub fn def() -> PropertyDef {
 			}, check_cert_case),
 			sweep_sub("int-sweep", int_batches, check_int_batch),
 			sweep_sub("attr-order-sweep", attr_order_cases, check_csr_case),
+			sweep_sub("auto-serial-digest-sweep", crate::props::c05::serial_sweep_cases, check_serial_sweep),
+			sweep_sub("public-key-length-sweep", key_len_cases, check_key_len),
 			sweep_sub("spki-sweep", |_| {
 				let mut v = Vec::new();
 				for alg in keys::available_algs() {
